@@ -393,6 +393,13 @@ def run(ctx: Ctx) -> None:
     rep.rule("C14.R11", "collectors accumulate: the set / list / dict a function returns is never re-assigned inside the loop that fills it")
     n11 = accumulators_not_overwritten(ctx, "C14.R11", ("dds.introspect", "dds._introspect_indirect", "dds._retrieve_objects"))
     rep.floor("C14.R11", n11, 1)
+    from .common import kinds_not_confused
+    rep.rule("C14.R12", "the analysis does not confuse a name as written in a function with the canonical path of the object it resolves to (mypy: no argument / "
+                        "assignment of another kind than declared): the per-evaluation memo of variable hashes is keyed by the canonical path, so that the variables "
+                        "of two accepted modules that share a local name are hashed separately")
+    n12 = kinds_not_confused(ctx, "C14.R12", ("dds.introspect", "dds._introspect_indirect", "dds._retrieve_objects", "dds._eval_ctx"),
+                             "two accepted modules that both read a variable named alike (LIMIT): the second one reuses the hash of the first, editing it changes no signature and the stale result is served")
+    rep.floor("C14.R12", n12, 3)
 
     # ---- R7 / R8: the boundary is decided from the accepted set and the program alone -----------------------------
     from .c02 import process_reads, RESOLVER_MODULES
